@@ -29,6 +29,15 @@ struct W16 {
     socks: u16,
     log_path: String,
     expects: Vec<Expect>,
+    /// the management API is polled throughout the run (GET /api/live, /api/history, /api/status every few ms): reading the
+    /// records must never change what is recorded
+    poller: tokio::task::JoinHandle<()>,
+}
+
+impl Drop for W16 {
+    fn drop(&mut self) {
+        self.poller.abort();
+    }
 }
 
 async fn new_world(history: usize, tag: &str) -> W16 {
@@ -49,7 +58,26 @@ async fn new_world(history: usize, tag: &str) -> W16 {
     set_rules(&w, &[("deny".into(), Some("request.target.port == 1".into())), ("bad".into(), Some("request.target.port == 2".into())), ("gone".into(), Some("request.target.port == 3".into())), ("up".into(), None)]).await.unwrap();
     let http = start_listener(&w, "name: http\ntype: http").await;
     let socks = start_listener(&w, "name: socks\ntype: socks").await;
-    W16 { w, http, socks, log_path, expects: vec![] }
+    let api = free_port();
+    let m: crate::metrics::MetricsServer = serde_yaml::from_str(&format!("bind: 127.0.0.1:{}\nui: null", api)).unwrap();
+    Arc::new(m).listen(w.state.clone()).await.unwrap();
+    let poller = tokio::spawn(async move {
+        tokio::time::sleep(std::time::Duration::from_millis(100)).await;
+        loop {
+            for path in ["/api/live", "/api/history", "/api/status"] {
+                let _ = tokio::time::timeout(std::time::Duration::from_millis(500), async {
+                    let mut s = TcpStream::connect(("127.0.0.1", api)).await.ok()?;
+                    s.write_all(format!("GET {} HTTP/1.1\r\nHost: x\r\nConnection: close\r\n\r\n", path).as_bytes()).await.ok()?;
+                    let mut v = vec![];
+                    s.read_to_end(&mut v).await.ok()?;
+                    Some(())
+                })
+                .await;
+            }
+            tokio::time::sleep(std::time::Duration::from_millis(7)).await;
+        }
+    });
+    W16 { w, http, socks, log_path, expects: vec![], poller }
 }
 
 async fn wait_dropped(w: &World, id: u64) {
